@@ -387,6 +387,11 @@ Definition digested (ix : list (ref * nat)) : list nat :=
    repair of index persistence (property C08) may keep every old digest reference whose
    descriptor is still in the rebuilt graph ([kl] = true).  The harness probes the store and
    passes what it sees; the theorems hold for both. *)
+(* graph.Exists on the rebuilt graph: its nodes, and the leaf descriptors that IndexAll records
+   by reference without their content being stored (successors of a node, or a tagged root) *)
+Definition gexists (bl tn g : list nat) (n : nat) : bool :=
+  memb n g || (leaf_absent bl n && (memb n tn || existsb (fun p => memb n (succ p)) g)).
+
 Definition gc_index (c : cfg) (kl : bool) (ords : nat -> list nat) (st : state)
   : option (list (ref * nat) * list nat) :=
   let ix := idx st in
@@ -397,7 +402,7 @@ Definition gc_index (c : cfg) (kl : bool) (ords : nat -> list nat) (st : state)
   | Some (g, kept) =>
     Some (filter (fun e => match fst e with RTag _ => true | _ => false end) ix
           ++ map (fun n => (RDig n, n))
-                 (dedup tn ++ kept ++ (if kl then filter (fun n => memb n g) (digested ix) else [])), g)
+                 (dedup tn ++ kept ++ (if kl then filter (gexists (blobs st) tn g) (digested ix) else [])), g)
   end.
 
 (* the sweep of blobs/: known algorithm directory, valid digest name, not in the graph *)
